@@ -150,6 +150,10 @@ def big(case, d):
             ref = (np.arange(n, dtype='int64') % 247).astype('uint8')
             src = darr.asarray(os.path.join(d, 'src'), ref, chunklen=40_000_000)
             a = src.copy(path)
+        elif kind == 'exactmultiple':
+            # the length is EXACTLY one default chunk (80 MiB // row size rows): no remainder
+            ref = ((np.arange(4 * 20 * 1024 ** 2, dtype='int64') % 241).astype('uint8')).reshape(4, 20 * 1024 ** 2)
+            a = darr.asarray(path, ref)
         elif kind in ('widecopy', 'wideasarray'):
             # ONE row is larger than the 80 MiB default chunk: the guessed chunk length must not drop to 0
             w = 83_886_081
